@@ -64,6 +64,8 @@ namespace {
         pika::experimental::event event;
         pika::thread target;
         bool target_registered = false;
+        // additional waiters on the same latch / semaphore (one wake-up operation has to release them all)
+        int co_waiters = 0, co_registered = 0, co_resumed = 0;
     };
     std::vector<std::unique_ptr<Pair>> pairs;
 
@@ -114,6 +116,13 @@ namespace {
             break;
         }
         case M_SEM:
+            for (int k = 0; k < p.co_waiters; k++)
+                ex::execute(ex::thread_pool_scheduler{}, [&p] {
+                    p.co_registered++;
+                    p.sem.acquire();
+                    VH_CHECK(p.wake_invoked, "C02.spurious_resume", "a co-waiter acquired the semaphore before the release");
+                    p.co_resumed++;
+                });
             p.registered = true;
             ev(1, idx, p.mech);
             p.sem.acquire();
@@ -154,6 +163,13 @@ namespace {
             break;
         }
         case M_LATCH:
+            for (int k = 0; k < p.co_waiters; k++)
+                ex::execute(ex::thread_pool_scheduler{}, [&p] {
+                    p.co_registered++;
+                    p.latch.wait();
+                    VH_CHECK(p.wake_invoked, "C02.spurious_resume", "a co-waiter returned from latch::wait before count_down");
+                    p.co_resumed++;
+                });
             p.registered = true;
             ev(1, idx, p.mech);
             p.latch.wait();
@@ -220,7 +236,7 @@ namespace {
             p.wake_returned = true;
             return;
         }
-        while (!p.registered) yield_here(os, 1);
+        while (!p.registered || p.co_registered < p.co_waiters) yield_here(os, 1);
         yield_here(os, p.waker_delay);
         p.wake_invoked = true;
         p.wake_inv_seq = sim_seq();
@@ -252,7 +268,8 @@ namespace {
         }
         case M_TIMED_SEM:
         case M_SEM:
-            p.sem.release();
+            // one release for the waiter and all co-waiters
+            p.sem.release(1 + p.co_waiters);
             break;
         case M_LATCH:
             p.latch.count_down(1);
@@ -288,6 +305,7 @@ namespace {
                 op.v[2] = r.range(0, 4);             // waker delay (yields)
                 op.v[3] = r.range(0, 3);             // waiter pre-yields
                 op.v[4] = r.range(0, 2);             // extra wake-ups
+                op.v[5] = r.chance(1, 2) ? r.range(1, 3) : 0;    // co-waiters on the same latch / semaphore
                 prog.push_back(op);
             }
             ctx.program = prog;
@@ -318,6 +336,8 @@ namespace {
             p->waker_delay = (int) op.v[2];
             p->pre_yields = (int) op.v[3];
             p->extra = (int) op.v[4];
+            p->co_waiters = (p->mech == M_LATCH || p->mech == M_SEM) ? (int) (op.v[5] & 3) : 0;
+            if (p->co_waiters) probe("co_waiters");
             pairs.push_back(std::move(p));
         }
         // parties: 2i = waiter i, 2i+1 = waker i
@@ -337,10 +357,13 @@ namespace {
         while (!P.all_finished()) main_pause();
         sim_quiesce(2000000);
         P.join_os();
+        pika::wait();    // co-waiters are plain tasks, not parties
         for (int i = 0; i < n; i++)
         {
             Pair& p = *pairs[(size_t) i];
             VH_CHECK(p.resumed == 1, "C02.lost_wakeup", "waiter %d (mechanism %d) resumed %d times", i, p.mech, p.resumed);
+            VH_CHECK(p.co_resumed == p.co_waiters, "C02.lost_wakeup", "pair %d (mechanism %d): %d of %d co-waiters resumed after one wake-up for all (%d registered) | %s", i,
+                p.mech, p.co_resumed, p.co_waiters, p.co_registered, pk::dump().c_str());
             probe(sfmt("mech%d", p.mech).c_str());
         }
         focus_report();
